@@ -146,6 +146,13 @@ CHECKS = {
              "procedure, C and header, and the specification accepts an observation only if it equals every earlier "
              "observation with the same key.",
         note="Sampling of process histories (exploration); trusted: TLC, sha1 digests, kernel ASLR."),
+    "C14": dict(level=TV, design="6/C14",
+        technique="TLA+ trace validation (ExoCTrace mode of ExoMachine): executions of the real intrinsics are checked by TLC against the machine running the instructions' Exo bodies",
+        text="Each of the 60 @instr definitions of exo.platforms.x86 is wrapped in a generated procedure (DRAM operands at an offset "
+             "inside larger arrays, register operands moved with the library's load/store instructions), compiled with gcc "
+             "-mavx2 -mfma -mavx512f and sanitizers and executed on lane-distinct operands for every admissible size/mask value; "
+             "TLC accepts an execution only if its final state equals that of spec/ExoMachine.tla executing the Exo bodies.",
+        note="Trusted: gcc and the host CPU (AVX2 and AVX-512F present), TLC; operands restricted to exactly representable values."),
 }
 
 NOT_YET = {}
